@@ -2,6 +2,7 @@ package main
 
 import (
 	"fmt"
+	"go/token"
 	"strings"
 
 	"golang.org/x/tools/go/ssa"
@@ -152,8 +153,9 @@ func (a Atom) String() string {
 
 type Lit struct {
 	Atom
-	Val bool
-	At  ssa.Instruction
+	Val  bool
+	At   ssa.Instruction
+	Pure bool // the condition reads memory only (two evaluations on one path agree unless a store intervenes)
 }
 
 func (l Lit) String() string {
@@ -193,6 +195,9 @@ type Path struct {
 	RetVals []ssa.Value
 	Blocks  []int
 	End     string // "return" | "panic" | "backedge:<n>" | "stop:<n>"
+	// BackPhi: for a path ending at a back edge, the value each phi of the target block
+	// receives over that edge (by the phi's variable comment, e.g. "ready").
+	BackPhi map[string]string
 	phi     map[*ssa.Phi]ssa.Value
 }
 
@@ -358,6 +363,38 @@ func (w *World) EnumPaths(fn *ssa.Function, o EnumOpts) EnumResult {
 		visits := f.onPath[b.Index]
 		if visits >= 2 || (visits == 1 && (b == start || o.NoLoopExit)) {
 			finish(f, fmt.Sprintf("backedge:%d", b.Index), nil)
+			if prev != nil && len(res.Paths) > 0 {
+				last := res.Paths[len(res.Paths)-1]
+				last.BackPhi = map[string]string{}
+				pi := -1
+				for i, p := range b.Preds {
+					if p == prev {
+						pi = i
+					}
+				}
+				w.phiEnv, w.memEnv = f.phi, f.mem
+				for _, in := range b.Instrs {
+					ph, ok := in.(*ssa.Phi)
+					if !ok {
+						break
+					}
+					if pi >= 0 {
+						v := ph.Edges[pi]
+						name := ph.Comment
+						if name == "" {
+							name = ph.Name()
+						}
+						if v == ssa.Value(ph) {
+							last.BackPhi[name] = "<unchanged>"
+						} else if r, ok := f.phi[ph]; ok && w.Resolve(v) == r {
+							last.BackPhi[name] = "<unchanged>"
+						} else {
+							last.BackPhi[name] = w.AP(v)
+						}
+					}
+				}
+				w.phiEnv, w.memEnv = nil, nil
+			}
 			return
 		}
 		if o.StopBlock != nil && b != start && o.StopBlock(b) {
@@ -508,7 +545,7 @@ func (w *World) EnumPaths(fn *ssa.Function, o EnumOpts) EnumResult {
 					if lit != nil {
 						if !o.NoPrune {
 							for _, l := range g.lits {
-								if l.Atom == lit.Atom && l.Val != lit.Val && !storedBetween(g.effects, l, lit.Atom) {
+								if l.Atom == lit.Atom && l.Val != lit.Val && lit.Pure && !storedBetween(g.effects, l, lit.Atom) {
 									res.Pruned++
 									return
 								}
@@ -533,6 +570,46 @@ func (w *World) EnumPaths(fn *ssa.Function, o EnumOpts) EnumResult {
 	}
 	walk(start, nil, frame{phi: map[*ssa.Phi]ssa.Value{}, onPath: map[int]int{}, mem: map[*ssa.Alloc]ssa.Value{}})
 	return res
+}
+
+// pureValue: v is computed from memory loads, constants and operators only — no call whose
+// result may change between two evaluations (len/cap and comma-ok lookups are pure).
+func (w *World) pureValue(v ssa.Value, depth int) bool {
+	if depth > 12 {
+		return false
+	}
+	v = w.Resolve(v)
+	switch x := v.(type) {
+	case *ssa.Call:
+		if b, ok := x.Call.Value.(*ssa.Builtin); ok && (b.Name() == "len" || b.Name() == "cap") {
+			return w.pureValue(x.Call.Args[0], depth+1)
+		}
+		return false
+	case *ssa.UnOp:
+		if x.Op == token.ARROW {
+			return false
+		}
+		return w.pureValue(x.X, depth+1)
+	case *ssa.BinOp:
+		return w.pureValue(x.X, depth+1) && w.pureValue(x.Y, depth+1)
+	case *ssa.FieldAddr:
+		return w.pureValue(x.X, depth+1)
+	case *ssa.Field:
+		return w.pureValue(x.X, depth+1)
+	case *ssa.IndexAddr:
+		return w.pureValue(x.X, depth+1) && w.pureValue(x.Index, depth+1)
+	case *ssa.Index:
+		return w.pureValue(x.X, depth+1) && w.pureValue(x.Index, depth+1)
+	case *ssa.Lookup:
+		return w.pureValue(x.X, depth+1) && w.pureValue(x.Index, depth+1)
+	case *ssa.Extract:
+		return w.pureValue(x.Tuple, depth+1)
+	case *ssa.Phi:
+		return false
+	case *ssa.TypeAssert:
+		return w.pureValue(x.X, depth+1)
+	}
+	return true
 }
 
 // storedBetween: has the path stored to an access path mentioned by the atom? (conservative
@@ -569,8 +646,11 @@ func (w *World) branch(x *ssa.If, phi map[*ssa.Phi]ssa.Value, mem map[*ssa.Alloc
 		return
 	}
 	at, tv := canonAtom(op, l, r, !neg)
-	take(0, &Lit{Atom: at, Val: tv, At: x})
-	take(1, &Lit{Atom: at, Val: !tv, At: x})
+	w.phiEnv, w.memEnv = phi, mem
+	pure := w.pureValue(x.Cond, 0)
+	w.phiEnv, w.memEnv = nil, nil
+	take(0, &Lit{Atom: at, Val: tv, At: x, Pure: pure})
+	take(1, &Lit{Atom: at, Val: !tv, At: x, Pure: pure})
 }
 
 // condAtom decomposes a boolean value into (op,l,r) possibly negated, or a constant.
